@@ -2,19 +2,19 @@
 Driver for C10: evaluates the executable model `SB3Verif.Seeding` on what the harness (`/verif/harness/c10.py`)
 observed in real training runs.
 
-generators cross as "py" | "np" | "torch" | "actSpace" | "obsSpace" | "os" | "env<i>"
+generators cross as "py" | "np" | "torch" | "actSpace" | "obsSpace" | "os" | "noise" | "env<i>"
 
 ops
   {"op":"predict","cfg":{algo,nEnvs,seed,useSde,sdeFreq,useSdeAtWarmup,noise,learningStarts,cnn,envPy,envNp,initDraws},
    "resetDraws":[k],"events":[ev]}
-      ev = {"e":"rolloutStart"} | {"e":"step","t":t,"k":k,"draws":[k]} | {"e":"rolloutEnd"} | {"e":"train","n":n,"single":b}
+      ev = {"e":"learnStart"} | {"e":"rolloutStart"} | {"e":"step","t":t,"k":k,"draws":[k]} | {"e":"rolloutEnd"} | {"e":"train","n":n,"single":b}
          | {"e":"reset","draws":[k]} | {"e":"idle"}
     → {"ok":traceOK ⊥ (libTrace …), "noninterf":outputs from two ambient states are equal,
        "deliveries":[[seed|null]], "segments":[{"must":[g],"may":[g],"low":[g],"pend":[s]}]}
-      segment 0 = `construct`, 1 = the first reset, 2… = one per event; `must` = generators drawn with the
+      segment 0 = `construct`, 1 = `firstLearn` (noise reset + first env reset), 2… = one per event; `must` = generators drawn with the
       data-dependent branch not taken, `may` = with it taken; `low`/`pend` = analysis state after the segment
   {"op":"measured","n":n,"segments":[[mop]]}
-      mop = {"o":"seed","g":g,"s":s} | {"o":"envSeed","s":s,"n":n} | {"o":"envReset","n":n} | {"o":"draw","g":g,"k":k}
+      mop = {"o":"seed","g":g,"s":s} | {"o":"reset","g":g} | {"o":"envSeed","s":s,"n":n} | {"o":"envReset","n":n} | {"o":"draw","g":g,"k":k}
           | {"o":"discard","g":g,"k":k}
     → {"ok":traceOK ⊥ trace,"firstBad":segment index|null,"noninterf":b,"deliveries":[[seed|null]],
        "segments":[{"low":[g],"pend":[s]}]}
@@ -26,6 +26,7 @@ open Lean SB3Verif.Proto SB3Verif.Seeding
 
 def genName : Gen → String
   | .py => "py" | .np => "np" | .torch => "torch" | .actSpace => "actSpace" | .obsSpace => "obsSpace" | .os => "os"
+  | .noise => "noise"
   | .env i => s!"env{i}"
 
 def asGen (j : Json) : Except String Gen := do
@@ -37,6 +38,7 @@ def asGen (j : Json) : Except String Gen := do
   | "actSpace" => pure .actSpace
   | "obsSpace" => pure .obsSpace
   | "os" => pure .os
+  | "noise" => pure .noise
   | _ =>
     if s.startsWith "env" then
       match (s.drop 3).toNat? with
@@ -48,6 +50,7 @@ def asOp (j : Json) : Except String Op := do
   let o ← getStr j "o"
   match o with
   | "seed" => return .seed (← fld j "g" >>= asGen) (← getNat j "s")
+  | "reset" => return .reset (← fld j "g" >>= asGen)
   | "envSeed" => return .envSeed (← getNat j "s") (← getNat j "n")
   | "envReset" => return .envReset (← getNat j "n")
   | "draw" => return .draw (← fld j "g" >>= asGen) (← getNat j "k")
@@ -73,6 +76,7 @@ def asCfg (j : Json) : Except String Cfg := do
 def asEv (b : Bool) (j : Json) : Except String Ev := do
   let e ← getStr j "e"
   match e with
+  | "learnStart" => return .learnStart
   | "rolloutStart" => return .rolloutStart
   | "step" => return .step (← getNat j "t") (← getNat j "k") b (← getList asNat j "draws")
   | "rolloutEnd" => return .rolloutEnd
@@ -82,7 +86,7 @@ def asEv (b : Bool) (j : Json) : Except String Ev := do
   | _ => throw s!"bad event {e}"
 
 def allGens (n : Nat) : List Gen :=
-  [.py, .np, .torch, .actSpace, .obsSpace, .os] ++ (List.range n).map Gen.env
+  [.py, .np, .torch, .actSpace, .obsSpace, .os, .noise] ++ (List.range n).map Gen.env
 
 def dedup (l : List Gen) : List Gen := l.foldl (fun acc g => if acc.contains g then acc else acc ++ [g]) []
 
@@ -112,8 +116,8 @@ def stepC10 (_ : Unit) (j : Json) : Except String (Unit × Json) := do
     let evF ← evJ.mapM (asEv false)
     let evT ← evJ.mapM (asEv true)
     let n := cfg.nEnvs
-    let segsF := [construct cfg, segOps cfg (.reset ds)] ++ evF.map (segOps cfg)
-    let segsT := [construct cfg, segOps cfg (.reset ds)] ++ evT.map (segOps cfg)
+    let segsF := [construct cfg, firstLearn cfg ds] ++ evF.map (segOps cfg)
+    let segsT := [construct cfg, firstLearn cfg ds] ++ evT.map (segOps cfg)
     let traceT := libTrace cfg ds evT
     let rec go (L : Low) (sf st : List (List Op)) (acc : List Json) : List Json :=
       match sf, st with
